@@ -54,6 +54,33 @@ theorem failsWith_not_clean {cs : List Call} {e : IoErr} (h : FailsWith cs e) : 
   rw [this] at hl
   cases hl
 
+/-- in a log that ends with the only failing call, a failing call is the last one -/
+theorem failsWith_last_only {cs : List Call} {e : IoErr} (h : FailsWith cs e) (i : Nat)
+    (hi : i < cs.length) (hf : (cs[i]).failure ≠ none) : i + 1 = cs.length := by
+  obtain ⟨pre, last, hcs, hpre, _⟩ := h
+  subst hcs
+  have hlen : (pre ++ [last]).length = pre.length + 1 := by simp
+  by_cases hp : i < pre.length
+  · exfalso
+    apply hf
+    have : (pre ++ [last])[i] = pre[i] := List.getElem_append_left hp
+    rw [this]
+    exact hpre _ (List.getElem_mem hp)
+  · omega
+
+/-- ... and its error is the error the log ends with -/
+theorem failsWith_unique {cs : List Call} {e e' : IoErr} (h : FailsWith cs e) {c : Call}
+    (hc : c ∈ cs) (hf : c.failure = some e') : e' = e := by
+  obtain ⟨pre, last, hcs, hpre, hlast⟩ := h
+  subst hcs
+  rcases List.mem_append.1 hc with hp | hl
+  · rw [hpre c hp] at hf; cases hf
+  · simp only [List.mem_singleton] at hl
+    subst hl
+    rw [hlast] at hf
+    cases hf
+    rfl
+
 /-! ## `write_all` -/
 
 theorem writeAll_spec (script : List Beh) (buf : Bytes) :
@@ -447,6 +474,41 @@ theorem run_no_panic {B : Type} [FmtWrite B] (ops : List Op) (st : St B)
 
 /-! ## the API boundaries in terms of `feed` -/
 
+theorem takeErr_of_some {w : WriteWrapper} {io : IoErr} (h : w.err = some io) (e : Err) :
+    w.takeErr e = .writeFailure (some io) := by
+  simp [WriteWrapper.takeErr, h, writeFailure]
+
+theorem takeErr_of_none {w : WriteWrapper} (h : w.err = none) (e : Err) : w.takeErr e = e := by
+  simp [WriteWrapper.takeErr, h]
+
+theorem check_of_some {w : WriteWrapper} {io : IoErr} (h : w.err = some io) :
+    w.check = .error (.writeFailure (some io)) := by
+  simp [WriteWrapper.check, h, writeFailure]
+
+theorem check_of_none {w : WriteWrapper} (h : w.err = none) : w.check = .ok () := by
+  simp [WriteWrapper.check, h]
+
+/-- the boundary with a held error: whatever the evaluation returned (short of a panic), the
+    call returns `WriteFailure` whose source is the held error -/
+theorem finish_of_some {w : WriteWrapper} {io : IoErr} (h : w.err = some io)
+    (r : Chk (Except Err Unit)) (hr : r ≠ .panic) :
+    w.finish r = .ok (.error (.writeFailure (some io))) := by
+  cases r with
+  | panic => exact absurd rfl hr
+  | ok x =>
+    cases x with
+    | ok u => simp [WriteWrapper.finish, check_of_some h]
+    | error e => simp [WriteWrapper.finish, takeErr_of_some h]
+
+theorem finish_of_none {w : WriteWrapper} (h : w.err = none) (r : Chk (Except Err Unit)) :
+    w.finish r = r := by
+  cases r with
+  | panic => rfl
+  | ok x =>
+    cases x with
+    | ok u => simp [WriteWrapper.finish, check_of_none h]
+    | error e => simp [WriteWrapper.finish, takeErr_of_none h]
+
 /-- Both renders in terms of the chunk sequence `chunksOf ops`. -/
 theorem render_spec (ops : List Op) (script : List Beh) :
     (renderString ops).buf = flat (chunksOf ops) ∧
@@ -481,19 +543,14 @@ theorem render_spec (ops : List Op) (script : List Beh) :
       simp only [renderTo]
       have : (run ops (St.init (⟨script, [], none⟩ : WriteWrapper))).1.out.w.err = none := by
         rw [hw]; exact herr
-      cases hrr : (run ops (St.init (⟨script, [], none⟩ : WriteWrapper))).2 with
-      | panic => rfl
-      | ok x =>
-        cases x with
-        | ok u => simp [WriteWrapper.finish, this]
-        | error e => simp [WriteWrapper.finish, WriteWrapper.takeErr, this]
+      exact finish_of_none this _
     · right
       obtain ⟨e, herr, _⟩ := f4 hok
       refine ⟨hok, e, herr, ?_⟩
       simp only [renderTo, hres]
       have : (run ops (St.init (⟨script, [], none⟩ : WriteWrapper))).1.out.w.err = some e := by
         rw [hw]; exact herr
-      simp [WriteWrapper.finish, WriteWrapper.takeErr, this]
+      exact finish_of_some this _ (by simp)
 
 /-- the facts about a `renderTo` that all theorems below are read off from -/
 theorem render_facts (ops : List Op) (script : List Beh) :
